@@ -200,7 +200,11 @@ def find_witness(prop, seed, budget):
     if os.path.exists(out):
         os.remove(out)
     for k in kind:
-        p = subprocess.run([exe, "search", k, str(seed), str(budget), out], capture_output=True, text=True, timeout=900)
+        if k == "ser":
+            cmd = [os.path.join(os.path.dirname(exe), "serdiff"), "search", str(seed), str(budget), out]
+        else:
+            cmd = [exe, "search", k, str(seed), str(budget), out]
+        p = subprocess.run(cmd, capture_output=True, text=True, timeout=900)
         if p.returncode == 1 and os.path.exists(out):
             return json.load(open(out)), ""
     return None, "search over generated inputs found no failing input"
@@ -258,7 +262,14 @@ def check_property(prop, tier, seed):
     for unit in pcfg["units"]:
         ucfg = CONF["units"][unit]
         if ucfg["kind"] == "verus":
-            ur = run_verus_unit(unit, tier, seed, prop)
+            from concurrent.futures import ThreadPoolExecutor
+            with ThreadPoolExecutor(max_workers=2) as ex:
+                fut_c = ex.submit(run_canaries, unit, prop)
+                ur = run_verus_unit(unit, tier, seed, prop)
+                try:
+                    cr_pre = fut_c.result()
+                except Undecided as e:
+                    cr_pre = e
             checker_cmds.append(ur["res"]["cmd"])
             relevant_fail = [f for f in ur["fails"] if prop in f["tags"]]
             other_fail = [f for f in ur["fails"] if prop not in f["tags"]]
@@ -288,7 +299,9 @@ def check_property(prop, tier, seed):
                 log(f"note: {len(other_fail)} failing obligation(s) in unit {unit} are not tagged {prop}: "
                     + ", ".join(sorted({f['obligation'] for f in other_fail})))
             # vacuity guard (ii): canaries
-            cr = run_canaries(unit, prop)
+            if isinstance(cr_pre, Undecided):
+                raise cr_pre
+            cr = cr_pre
             canary_reports[unit] = cr
             if cr["verified_unexpectedly"]:
                 undecided.append(f"vacuity: canaries verified in unit {unit}: {cr['verified_unexpectedly']}")
@@ -367,6 +380,12 @@ def replay(path):
     if not exe:
         log("replay crate does not build:", err)
         return 2
+    try:
+        w = json.load(open(path)).get("witness") or {}
+    except Exception:
+        w = {}
+    if w.get("kind") == "ser":
+        exe = os.path.join(os.path.dirname(exe), "serdiff")
     return subprocess.call([exe, path])
 
 
